@@ -116,7 +116,7 @@ Print Assumptions c33_model_satisfies_monitor.
 
 (* ---- non-vacuity -------------------------------------------------------------------------- *)
 Definition ex_g : target := Tg 1 1 1 2 1 1 0.
-Definition ex_r (sess oseq : N) (seen : Z) : route := Rt 1 1 1 oseq sess 1 0 0 0 1000 seen.
+Definition ex_r (sess oseq : N) (seen : Z) : route := Rt 1 1 1 oseq sess sess 0 0 0 1000 seen.  (* device = session *)
 Definition ex_ops : list op :=
   [ OBecome ex_g;
     ORegister ex_g (ex_r 2 3 0);
